@@ -172,8 +172,31 @@ class extract_visitor(NodeVisitor):
             # `**rest` is what follows the last key: pattern pair
             last = node.patterns[-1] if node.patterns else None  # type: ignore[attr-defined]
             start = (last.end_lineno, last.end_col_offset) if last else np(node)
-            declared_at = self.top.find_id_loc(node.rest, start, delimeters=False)  # type: ignore[attr-defined]
-            self._bind_capture(node, node.rest, declared_at)  # type: ignore[attr-defined]
+            self._bind_capture(node, node.rest, self._rest_loc(node, start))  # type: ignore[attr-defined]
+
+    def _rest_loc(self, node, start):
+        # type: (ast.AST, tuple[int, int]) -> tuple[int, int]
+        # between the last pair and `**rest` stand only punctuation, line
+        # breaks and comments (which may well contain the word): the name is
+        # the first thing behind the `**`
+        lines = self.top.source.lines
+        ln, col = start
+        stars = False
+        while ln <= min(node.end_lineno, len(lines)):  # type: ignore[attr-defined]
+            code = lines[ln - 1].split('#', 1)[0].rstrip()
+            if code.endswith('\\'):
+                code = code[:-1]
+            pos = code.find('**', col) if not stars else -1
+            if pos >= 0:
+                stars = True
+                col = pos + 2
+            if stars:
+                tail = code[col:]
+                if tail.strip():
+                    return ln, col + len(tail) - len(tail.lstrip())
+            ln += 1
+            col = 0
+        return start
 
     def visit_If(self, node):
         # type: (ast.If) -> None
